@@ -106,17 +106,6 @@ def adjSum : List α → α
   | a :: b :: r => a * b + adjSum (b :: r)
   | _ => 0
 
-/-- `[k(x_i, l_i, r_i)]_i` -/
-def map3 (k : α → α → α → α) : List α → List α → List α → List α
-  | a :: as, b :: bs, c :: cs => k a b c :: map3 k as bs cs
-  | _, _, _ => []
-
-/-- trid.cpp: `(x - 1).square().sum() - (x[0..n-1) * x[1..n)).sum()`;
-    `gx = 2 * (x - 1); gx[1..n) -= x[0..n-1); gx[0..n-1) -= x[1..n)` (a missing neighbour counts as 0) -/
-def tridF (x : List α) : α := sumIdx (fun _ xi => (xi - 1) * (xi - 1)) 0 x - adjSum x
-def tridG (x : List α) : List α :=
-  map3 (fun xi l r => 2 * (xi - 1) - l - r) x (0 :: x) (x.drop 1 ++ [0])
-
 /-- sum of a function of the consecutive pairs `(x_i, x_{i+1})` -/
 def pairSum (v : α → α → α) : List α → α
   | a :: b :: r => v a b + pairSum v (b :: r)
@@ -128,6 +117,13 @@ def pairGrad (c : α → α → α × α) : α → List α → List α
   | _, [] => []
   | carry, [_] => [carry]
   | carry, a :: b :: r => (carry + (c a b).1) :: pairGrad c (c a b).2 (b :: r)
+
+/-- trid.cpp: `(x - 1).square().sum() - (x[0..n-1) * x[1..n)).sum()`;
+    `gx = 2 * (x - 1); gx[1..n) -= x[0..n-1); gx[0..n-1) -= x[1..n)`: the pair `(x_i, x_{i+1})` subtracts `x_{i+1}` from
+    entry `i` and `x_i` from entry `i + 1` -/
+def tridF (x : List α) : α := sumIdx (fun _ xi => (xi - 1) * (xi - 1)) 0 x - adjSum x
+def tridG (x : List α) : List α :=
+  vadd (mapIdx (fun _ xi => 2 * (xi - 1)) 0 x) (pairGrad (fun a b => (-b, -a)) 0 x)
 
 /-- chained_lq.cpp: `v1 = -xi - xi1`, `v2 = v1 + square(xi) + square(xi1) - 1`; `fx += max(v1, v2)`;
     gradient of the second piece iff `v2 > v1` -/
@@ -271,10 +267,12 @@ def ballG (origin : List α) (x : List α) : List α := smul 2 (vsub x origin)
 def linearF (q : List α) (r : α) (x : List α) : α := dot q x + r
 def linearG (q : List α) (_x : List α) : List α := q
 
-/-- `quadratic_t`: `0.5 * x.dot(P x) + q.dot(x) + r`, `P x + q` -/
+/-- `quadratic_t`: `0.5 * x.dot(P x) + q.dot(x) + r`, `0.5 * (P x + Pᵀ x) + q` (the gradient of the symmetric part
+    of `P`, constraint.cpp:84-93 after 78c1895) -/
 def cquadF (P : List (List α)) (q : List α) (r : α) (x : List α) : α :=
   1 / 2 * dot x (mulVec P x) + dot q x + r
-def cquadG (P : List (List α)) (q : List α) (x : List α) : List α := vadd (mulVec P x) q
+def cquadG (P : List (List α)) (q : List α) (x : List α) : List α :=
+  vadd (smul (1 / 2) (vadd (mulVec P x) (tmulVec x.length P x))) q
 
 /-- `minimum_t`: `value - x(dimension)`, `-e_dimension` -/
 def minimumF (v : α) (d : Nat) (x : List α) : α := v - x.getD d 0
